@@ -133,6 +133,78 @@ type Foreign interface {
 	AssertTo(t types.Type) (val any, ok any)
 }
 
+// PackageQualified is implemented by foreign types that are declared in a package other than the one the
+// abstract program is written in: types.TypeString asks its qualifier how to spell that package.
+type PackageQualified interface {
+	TypePackage() Value // the *types.Package value, nil for the program's own package
+}
+
+// Real is a value of a standard-library type that the evaluated code creates itself and uses through its methods
+// only (a go/scanner.Scanner, a *token.FileSet, a *token.File): the library's own implementation, driven by
+// reflection. Nothing of /repo is involved in such a value.
+type Real struct{ V reflect.Value }
+
+// realTypes: the named library types whose zero value is a Real.
+var realTypes = map[string]reflect.Type{}
+
+// RegisterReal makes `var x T` of the library type named path.Name evaluate to a Real.
+func RegisterReal(name string, zero any) { realTypes[name] = reflect.TypeOf(zero) }
+
+// CallMethod implements Foreign by reflection.
+func (r *Real) CallMethod(name string, args []any) ([]any, bool, error) {
+	m := r.V.MethodByName(name)
+	if !m.IsValid() && r.V.CanAddr() {
+		m = r.V.Addr().MethodByName(name)
+	}
+	if !m.IsValid() {
+		return nil, false, nil
+	}
+	mt := m.Type()
+	var in []reflect.Value
+	for i, a := range args {
+		var pt reflect.Type
+		switch {
+		case mt.IsVariadic() && i >= mt.NumIn()-1:
+			pt = mt.In(mt.NumIn() - 1).Elem()
+		case i < mt.NumIn():
+			pt = mt.In(i)
+		default:
+			return nil, true, &EvalError{Msg: "too many arguments in call of " + name}
+		}
+		if IsUnknown(a) {
+			return nil, true, &EvalError{Msg: "argument of " + name + " is not determined by the abstract input"}
+		}
+		v, ok := goArg(a, pt)
+		if !ok {
+			return nil, true, &EvalError{Msg: fmt.Sprintf("argument %d of %s is %s", i+1, name, Show(a))}
+		}
+		in = append(in, v)
+	}
+	if len(in) < mt.NumIn()-1 || (!mt.IsVariadic() && len(in) != mt.NumIn()) {
+		return nil, true, &EvalError{Msg: "wrong number of arguments in call of " + name}
+	}
+	var outs []any
+	for _, o := range m.Call(in) {
+		outs = append(outs, fromGo(o))
+	}
+	return outs, true, nil
+}
+
+// AssertTo implements Foreign: by the name of the dynamic type.
+func (r *Real) AssertTo(t types.Type) (any, any) {
+	if _, ok := t.Underlying().(*types.Interface); ok {
+		return r, &Unknown{"whether a library value implements " + t.String()}
+	}
+	rt := r.V.Type()
+	name := ""
+	for rt.Kind() == reflect.Ptr {
+		name += "*"
+		rt = rt.Elem()
+	}
+	name += rt.PkgPath() + "." + rt.Name()
+	return r, name == t.String()
+}
+
 // Func is a function value.
 type Func struct {
 	Name   string
@@ -175,6 +247,8 @@ func Show(v any) string {
 		return "func " + x.Name
 	case *Unknown:
 		return "unknown(" + x.Why + ")"
+	case *Real:
+		return "library value " + x.V.Type().String()
 	}
 	return fmt.Sprint(v)
 }
@@ -197,3 +271,27 @@ func sortedStrings(xs []any) bool {
 }
 
 var _ = strings.Join
+
+// UniverseScope is the value of go/types.Universe; UniverseObject(name) the object it holds for a predeclared
+// identifier (nil if name is not predeclared). Both are singletons, so that identity comparisons work.
+var UniverseScope = map[string]any{TypeKey: "Scope", "universe": true}
+
+var universeObjs = map[string]map[string]any{}
+
+func init() {
+	for _, name := range types.Universe.Names() {
+		universeObjs[name] = map[string]any{TypeKey: "Object", "name": name, "parent": UniverseScope}
+	}
+}
+
+func UniverseObject(name string) Value {
+	if o, ok := universeObjs[name]; ok {
+		return o
+	}
+	return nil
+}
+
+// ScopeObject makes the types.Object of a declaration of the abstract program: name, declared in scope parent.
+func ScopeObject(name string, parent Value) map[string]any {
+	return map[string]any{TypeKey: "Object", "name": name, "parent": parent}
+}
